@@ -309,7 +309,7 @@ func (e *c05Env) modelTar(src []*c05Ent) ([]byte, bool, error) {
 	return m, true, err
 }
 
-func firstDiff(a, b []byte) int {
+func c05FirstDiff(a, b []byte) int {
 	n := len(a)
 	if len(b) < n {
 		n = len(b)
@@ -359,7 +359,7 @@ func (e *c05Env) routeLib(tree *c05Node, srcDir string, src []*c05Ent, cliBytes 
 	}
 	if cliBytes != nil {
 		e.r.Corr()
-		if i := firstDiff(buf.Bytes(), cliBytes); i >= 0 {
+		if i := c05FirstDiff(buf.Bytes(), cliBytes); i >= 0 {
 			c.Detail = fmt.Sprintf("first difference at byte %d", i)
 			e.r.Fail("predicate", "tar/not-deterministic", "desync.Tar and the desync tar command give different archives for the same tree", c)
 		}
@@ -521,7 +521,7 @@ func (e *c05Env) routeCLI(tree *c05Node, srcDir string, src []*c05Ent, withModel
 	if out, err := e.cli(120*time.Second, "tar", cat2, srcDir); err == nil {
 		b2, _ := os.ReadFile(cat2)
 		e.r.Count("twice|"+treeKey(tree), len(src) > 1)
-		if i := firstDiff(b1, b2); i >= 0 {
+		if i := c05FirstDiff(b1, b2); i >= 0 {
 			cc := *c
 			cc.Route = "twice"
 			cc.Detail = fmt.Sprintf("first difference at byte %d of %d/%d", i, len(b1), len(b2))
@@ -539,7 +539,7 @@ func (e *c05Env) routeCLI(tree *c05Node, srcDir string, src []*c05Ent, withModel
 			e.r.Corr()
 			if !ok {
 				e.r.Fail("corr", "corr:C05/tar-bytes", "the model has no archive for this tree (out of fuel or a modelled panic), the implementation wrote one", c)
-			} else if i := firstDiff(b1, m); i >= 0 {
+			} else if i := c05FirstDiff(b1, m); i >= 0 {
 				cc := *c
 				lo := i - 16
 				if lo < 0 {
